@@ -322,15 +322,16 @@ pub fn run_slice(cases: Vec<Case>, driver: &Driver, rule: &str, exhaustive: bool
                 model_replies: model.to_vec(),
             });
         }
-        // keep at most 4 failures per (kind, failing check) so that one cause (e.g. a known finding) cannot crowd out another
+        // keep at most 4 failures per (kind, failing check, family of the case) so that one cause (e.g. a known finding, which
+        // fails the same check in its own family on every run) cannot crowd out another
         if let Some(last) = report.failures.last() {
-            let key = |f: &Failure| format!("{}:{}", f.kind, f.detail.split(':').next().unwrap_or("").split(' ').next().unwrap_or(""));
+            let key = |f: &Failure| format!("{}:{}:{}", f.kind, f.detail.split(':').next().unwrap_or("").split(' ').next().unwrap_or(""), f.case.tag);
             let k = key(last);
             if report.failures.iter().filter(|f| key(f) == k).count() > 4 {
                 report.failures.pop();
             }
         }
-        if report.failures.len() >= 60 {
+        if report.failures.len() >= 120 {
             break;
         }
     }
